@@ -39,7 +39,7 @@ BOUND = {
     "thorough": "<=2 parameter deviations on the full product; 696 orientation letters; all cube conjugates of the generic gradients; interpreted mode on the <=1-deviation product",
 }
 
-VOLS = ["uniform", "dominant", "onezero", "dirichlet"]
+VOLS = ["uniform", "dominant", "onezero", "dirichlet", "sparse"]
 CORE_VG = ["ss_xz", "ss_yx", "ps_xy+", "ax_z-", "sub_zy", "gen0", "gens", "gen0_tr"]
 
 
